@@ -195,7 +195,13 @@ func (p *Parser) print(r rune) {
 		w        int
 	)
 	for p.r.Buffered() > 0 {
-		nextRune, _, _ := p.r.ReadRune()
+		nextRune, size, _ := p.r.ReadRune()
+		if nextRune == unicode.ReplacementChar && size == 1 {
+			// Invalid UTF-8 is never part of a grapheme: leave the byte
+			// to readRune, which delivers it as is
+			p.r.UnreadRune()
+			break
+		}
 		bldr.WriteRune(nextRune)
 		grapheme, rest, w, _ = uniseg.FirstGraphemeClusterInString(bldr.String(), -1)
 		if rest != "" {
